@@ -435,8 +435,8 @@ void SimulateF100L::alu(uint16_t opcode)
 
   int i = (opcode >> 11) & 1;
   int r = (opcode >> 8) & 3;
-  int n = (opcode >> 5) & 0x7ff;
-  int p = (opcode >> 8) & 0xff;
+  int n = opcode & 0x7ff;
+  int p = opcode & 0xff;
   int ea = 0;
   int lsp;
 
@@ -450,7 +450,8 @@ void SimulateF100L::alu(uint16_t opcode)
     {
       if (type == OP_JMP) { return; }
 
-      ea = pc;
+      // The operand is the word after the opcode (pc counts bytes).
+      ea = pc / 2;
       pc += 2;
     }
   }
@@ -458,17 +459,17 @@ void SimulateF100L::alu(uint16_t opcode)
   {
     if (p != 0)
     {
-      ea = memory->read16(n * 2);
+      ea = memory->read16(p * 2);
 
       if (r == 1)
       {
         ea += 1;
-        memory->write16(n * 2, ea);
+        memory->write16(p * 2, ea);
       }
         else
       if (r == 3)
       {
-        memory->write16(n * 2, ea - 1);
+        memory->write16(p * 2, ea - 1);
       }
     }
       else
